@@ -1,2 +1,193 @@
-//! Harnesses for property C03 (see /verif/properties.jsonl).
+//! Harnesses for property C03 (see /verif/properties.jsonl): the selection that feeds clock
+//! steering is non-empty only if at least `minimum_agreeing_sources` eligible sources
+//! (non-periodic, synchronised, radius <= maximum_source_uncertainty) have confidence intervals
+//! with a common point and they are a strict majority of all eligible sources; unsynchronised or
+//! too uncertain sources are never returned.
+//!
+//! The oracle is an independent O(n^2) recount that uses only comparisons on the interval
+//! end points. The end points are computed in the harness from the documented definition
+//! (radius = uncertainty * range_statistical_weight + delay * range_delay_weight); IEEE arithmetic
+//! is deterministic, so the oracle and the code see identical floats.
+use crate::common::*;
 use crate::stubs;
+use ntp_proto::verif::algorithm::kalman as kh;
+use ntp_proto::verif::time_types as tt;
+use ntp_proto::{AlgorithmConfig, NtpLeapIndicator, SynchronizationConfig};
+
+pub struct Cand {
+    pub offset: f64,
+    pub variance: f64,
+    pub delay: f64,
+    pub leap: u8,
+    pub periodic: bool,
+}
+
+fn snap(index: u64, c: &Cand) -> kh::SnapH {
+    kh::snapshot_from_raw(
+        index,
+        [c.offset, 0.0],
+        [[c.variance, 0.0], [0.0, 0.0]],
+        tt::ts_from_raw(0),
+        0.0,
+        c.delay,
+        if c.periodic { Some(1.0) } else { None },
+        tt::dur_from_raw(0),
+        tt::dur_from_raw(0),
+        leap_from_code(c.leap),
+        tt::ts_from_raw(0),
+    )
+}
+
+/// `exact_sqrt`: variance restricted to 0.0 (sqrt is exact and cheap; the radius varies through
+/// the delay term). Otherwise the variance is an arbitrary finite non-negative number.
+fn select_body<const N: usize>(zero_variance: bool, symbolic_weights: bool, grid: bool) {
+    // ---- all symbolic values first
+    // exactly N candidates; smaller candidate sets are the cases where some candidates are
+    // unsynchronised (those are skipped by both passes of `select`, i.e. behave as absent)
+    let n: usize = N;
+    let min_agree: usize = kani::any();
+    let limit: f64 = kani::any();
+    kani::assume(!limit.is_nan());
+    let (w_stat, w_delay) = if symbolic_weights {
+        let a: f64 = kani::any();
+        let b: f64 = kani::any();
+        kani::assume(a.is_finite() && a >= 0.0 && b.is_finite() && b >= 0.0);
+        (a, b)
+    } else {
+        (AlgorithmConfig::default().range_statistical_weight, AlgorithmConfig::default().range_delay_weight)
+    };
+    let mut cands: [Cand; N] = std::array::from_fn(|_| Cand { offset: 0.0, variance: 0.0, delay: 0.0, leap: 0, periodic: false });
+    let mut i = 0;
+    while i < N {
+        let offset: f64 = kani::any();
+        let variance: f64 = kani::any();
+        let delay: f64 = kani::any();
+        let leap: u8 = kani::any();
+        let periodic: bool = kani::any();
+        let grid_offset: i16 = kani::any();
+        let grid_radius: u8 = kani::any();
+        // grid: offsets are whole seconds in i16, delays are 4*k seconds (k in u8) so that with the
+        // default weights every interval end point is a small integer (exact arithmetic, and the
+        // SAT solver can identify the copies of the end-point computation; with arbitrary f64 it
+        // cannot: measured > 10 min for two candidates)
+        let (offset, delay) = if grid { (grid_offset as f64, (grid_radius as f64) * 4.0) } else { (offset, delay) };
+        kani::assume(offset.is_finite());
+        kani::assume(delay.is_finite() && delay >= 0.0);
+        kani::assume(variance.is_finite() && variance >= 0.0);
+        kani::assume(leap <= 4);
+        // zero_variance: the drawn value is ignored and the variance is the constant 0.0, so that
+        // sqrt(0.0) * weight folds to a constant (every re-evaluation of the radius inside the
+        // filter iterator would otherwise carry CBMC's sqrt model: two 53-bit multipliers each)
+        let variance = if zero_variance { 0.0 } else { variance };
+        cands[i] = Cand { offset, variance, delay, leap, periodic };
+        i += 1;
+    }
+
+    let sync = SynchronizationConfig { minimum_agreeing_sources: min_agree, ..SynchronizationConfig::default() };
+    let algo = AlgorithmConfig {
+        maximum_source_uncertainty: limit,
+        range_statistical_weight: w_stat,
+        range_delay_weight: w_delay,
+        ..AlgorithmConfig::default()
+    };
+    let mut v = kh::SnapVecH::with_capacity(N);
+    let mut lo = [0.0f64; N];
+    let mut hi = [0.0f64; N];
+    let mut radius = [0.0f64; N];
+    let mut elig = [false; N];
+    let mut n_elig = 0usize;
+    let mut i = 0;
+    while i < N {
+        {
+            let s = snap(i as u64 + 1, &cands[i]);
+            // documented definition of the confidence interval
+            let r = s.offset_uncertainty() * w_stat + cands[i].delay * w_delay;
+            kani::assume(!r.is_nan());
+            radius[i] = r;
+            lo[i] = cands[i].offset - r;
+            hi[i] = cands[i].offset + r;
+            elig[i] = i < n && !cands[i].periodic && cands[i].leap != 4 && r <= limit;
+            if elig[i] {
+                n_elig += 1;
+            }
+            v.push(s);
+        }
+        i += 1;
+    }
+
+    // ---- code under test
+    let sel = kh::select::select_hook(&sync, &algo, &v);
+
+    // ---- oracle
+    // (a) every returned source is one of the candidates, synchronised and not too uncertain
+    let mut k = 0;
+    while k < N {
+        if k < sel.len() {
+            let idx = sel.get(k).index();
+            assert!(idx >= 1 && idx <= n as u64, "returned source is a candidate");
+            let j = (idx - 1) as usize;
+            assert!(cands[j].leap != 4, "an unsynchronised source is never selected");
+            assert!(radius[j] <= limit, "a source above the uncertainty limit is never selected");
+            // distinct: returned in candidate order
+            if k + 1 < sel.len() {
+                assert!(sel.get(k + 1).index() > idx, "no source is returned twice");
+            }
+        }
+        k += 1;
+    }
+    assert!(sel.len() <= n, "not more sources than candidates");
+    // (b) non-empty selection => an agreeing strict majority of the eligible sources exists
+    if !sel.is_empty() {
+        let mut witness = false;
+        let mut i = 0;
+        while i < N {
+            if elig[i] {
+                // sources whose interval contains the left end point of source i
+                let mut cnt = 0usize;
+                let mut j = 0;
+                while j < N {
+                    if elig[j] && lo[j] <= lo[i] && lo[i] <= hi[j] {
+                        cnt += 1;
+                    }
+                    j += 1;
+                }
+                if cnt >= min_agree && cnt >= 1 && 2 * cnt > n_elig {
+                    witness = true;
+                }
+            }
+            i += 1;
+        }
+        assert!(witness, "selection non-empty only with an agreeing strict majority of at least the configured minimum");
+    }
+    kani::cover!(sel.len() == n && n == N, "all candidates selected");
+    kani::cover!(sel.is_empty() && n_elig >= 2 && min_agree <= 1, "no majority: eligible sources disagree");
+    kani::cover!(!sel.is_empty() && sel.len() < n_elig, "majority found, an outlier dropped");
+    kani::cover!(!sel.is_empty() && n_elig < n, "ineligible candidate present while selecting");
+    kani::cover!(sel.is_empty() && n_elig > 0 && n_elig < min_agree && min_agree <= N, "too few agreeing sources");
+}
+
+// quick: up to 3 candidates, zero filter variance (radius = delay * range_delay_weight), default weights
+#[kani::proof]
+#[kani::unwind(7)]
+#[kani::stub(alloc::slice::stable_sort, crate::common::stable_sort_stub)]
+fn c03_select() {
+    select_body::<3>(true, false, true);
+}
+
+// thorough: up to 4 candidates
+#[kani::proof]
+#[kani::unwind(9)]
+#[kani::stub(alloc::slice::stable_sort, crate::common::stable_sort_stub)]
+fn c03_select_4() {
+    select_body::<4>(true, false, true);
+}
+
+#[kani::proof]
+#[kani::unwind(5)]
+#[kani::stub(alloc::slice::stable_sort, crate::common::stable_sort_stub)]
+#[kani::stub(f64::sqrt, crate::common::sqrt_uf)]
+#[kani::stub(std::vec::Vec::push, crate::common::vec_push_nogrow)]
+#[kani::stub(std::vec::Vec::reserve, crate::common::vec_reserve_nogrow)]
+fn probe_select_2() {
+    select_body::<2>(true, false, true);
+}
